@@ -167,6 +167,20 @@ def blackbox_case(spec):
         else:
             bad = oracles.check_opreturn(p, chain, coin)
         v.extend(viol("blackbox:" + sig, "%s [coin=%s, %d embedded scripts]" % (det, coin, len(scripts))) for sig, det in bad)
+    # other spellings of the coin's name on the command line: the tool may refuse them (it does today) - but if it accepts one, it has to
+    # parse the coin that was named, not some other
+    for sp in (coin.capitalize(), coin.upper(), coin[:1].upper() + coin[1:4] + coin[4:5].upper() + coin[5:]):
+        if sp == coin:
+            continue
+        dump = harness.fresh(os.path.join(work, "o"))
+        p = harness.run_cb(binary, d, coin, "csvdump", dump, coin_spelling=sp)
+        counters["blackbox_runs"] += 1
+        if p.rc == 0:
+            counters["other_spellings_accepted"] = counters.get("other_spellings_accepted", 0) + 1
+            bad = oracles.check_csvdump(p, dump, chain, coin)
+            v.extend(viol("blackbox:spelling:" + sig, "%s [-c %s accepted, coin=%s]" % (det, sp, coin)) for sig, det in bad[:1])
+        else:
+            counters["other_spellings_refused"] = counters.get("other_spellings_refused", 0) + 1
     import shutil
     shutil.rmtree(work, ignore_errors=True)
     return {"evaluations": counters["blackbox_runs"], "violations": v, "counters": counters,
